@@ -8,6 +8,7 @@ package pppoe
 
 import (
 	"bufio"
+	"encoding/binary"
 	"encoding/hex"
 	"fmt"
 	"net"
@@ -187,6 +188,8 @@ func c06ShowAddr(ip net.IP) string {
 // Brings the session's real LCP to Opened by packets, from a fresh object (s.up) or from Opened (the
 // subscriber renegotiates: the real This-Layer-Down callback onLCPDown runs, which sends Down to the NCPs),
 // and lets the real onLCPUp start authentication.  Returns false when LCP did not reach Opened.
+var c06LCPProbe string
+
 func c06LCPOpened(s *SessionState, bus *c06Bus, first bool) bool {
 	lastReq := func() *c06Pkt {
 		for i := len(bus.lcp) - 1; i >= 0; i-- {
@@ -203,6 +206,30 @@ func c06LCPOpened(s *SessionState, bus *c06Bus, first bool) bool {
 		r := lastReq()
 		if r == nil {
 			return false
+		}
+		// LCP's own identity on the wire: the magic number our Configure-Request announces must be the one
+		// ProcessConfReq compares with; a subscriber looping it back must get a Configure-Nak carrying it
+		c06LCPProbe = "no-magic-announced"
+		for i := 0; i+1 < len(r.data) && int(r.data[i+1]) >= 2 && i+int(r.data[i+1]) <= len(r.data); i += int(r.data[i+1]) {
+			if r.data[i] == 5 && r.data[i+1] == 6 {
+				m := r.data[i : i+6]
+				before := len(bus.lcp)
+				s.lcp.FSM().Input(ppp.ConfReq, 9, append([]byte(nil), m...))
+				c06LCPProbe = "no-answer"
+				for _, p := range bus.lcp[before:] {
+					switch {
+					case p.code == ppp.ConfNak && string(p.data) == string(m):
+						c06LCPProbe = "ok"
+					case p.code == ppp.ConfAck:
+						c06LCPProbe = "ACKED-OWN-MAGIC"
+					default:
+						c06LCPProbe = fmt.Sprintf("answer-%d", p.code)
+					}
+				}
+				if binary.BigEndian.Uint32(m[2:]) != s.lcp.LocalConfig().Magic {
+					c06LCPProbe = "ANNOUNCED-MAGIC-IS-NOT-LOCAL"
+				}
+			}
 		}
 		s.lcp.FSM().Input(ppp.ConfAck, r.id, r.data)
 		s.lcp.FSM().Input(ppp.ConfReq, 1, peerReq)
@@ -264,6 +291,16 @@ func c06Sess(f []string) string {
 		if a0 != "none" {
 			s.Attributes[aaa.AttrIPv4Address] = net.IP(c06Bytes(a0)).String()
 		}
+		if p := strings.Split(f[0], "/"); len(p) > 3 {
+			// DNS servers delivered by AAA
+			d := strings.Split(p[3], ",")
+			if d[0] != "n" {
+				s.Attributes[aaa.AttrDNSPrimary] = net.IP(c06Bytes(d[0])).String()
+			}
+			if len(d) > 1 && d[1] != "n" {
+				s.Attributes[aaa.AttrDNSSecondary] = net.IP(c06Bytes(d[1])).String()
+			}
+		}
 		s.extractIPFromAttributes()
 		c06Registry(s, al0, rs0)
 		// the authentication phase is over but the network phase is not entered: checkOpen then only logs
@@ -305,6 +342,9 @@ func c06Sess(f []string) string {
 		return strings.Join(acts, " ")
 	}
 	first := drain() // "scr:..." when startNCP started IPCP, "-" when it did not
+	if !strings.HasPrefix(a0, "restore:") {
+		first = "lcp=" + c06LCPProbe + " " + first
+	}
 	parts = append(parts, first+" a="+c06ShowAddr(s.IPv4Address)+" pa="+c06ShowAddr(s.ipcp.PeerConfig().PeerAddress))
 	for _, ev := range f[1:] {
 		switch {
